@@ -37,4 +37,8 @@ theorem C13_tie_timestamp (sec frac ts : Int) (h0 : 0 ≤ frac) (h1 : frac < 100
 theorem C13_tie_shapes :
     ExoVerif.Gen.oracleNonceShape.length = 2 ∧ ExoVerif.Gen.oracleTimestampShape.length = 2 := by decide
 
+/-- filter.go: addPSource hands the calculator only the copy built entry by entry through `detIDs.Add`
+(never the source as sent) — the `filterDetIDs` of the model (`C13_repeated_detid_counted_once`). -/
+theorem C13_tie_filter_source_shape : ExoVerif.Gen.oracleFilterSourceShape.length = 4 := by decide
+
 end ExoVerif.Oracle
